@@ -220,6 +220,10 @@ func scenarios(tier string, seed int64) []Scn {
 		add(Scn{Budget: 1, Base: "awaiting", NCalls: 3, Hook: "handshake", UserID: true})
 		add(Scn{Budget: 3, Base: "awaiting", NCalls: 1, RST: true})
 		add(Scn{Budget: -1, Base: "awaiting", NCalls: 2, UserID: true})
+		// websocket client sessions (dial plug-in + serve handler of the websocket mixer)
+		add(Scn{Budget: 3, Base: "idle", WS: true})
+		add(Scn{Budget: 1, Base: "awaiting", NCalls: 2, WS: true, UserID: true, RST: true})
+		add(Scn{Budget: 3, Base: "idle", Losses: 2, WS: true, UserID: true})
 		// user-assigned ids that are, or look like, addresses
 		add(Scn{Budget: 3, Base: "idle", UserID: true, IDForm: "remote-addr"})
 		add(Scn{Budget: 1, Base: "awaiting", NCalls: 2, UserID: true, IDForm: "remote-addr", Hook: "handshake", RST: true})
